@@ -403,3 +403,33 @@ func RetVals(r *ssa.Return) []ssa.Value {
 	}
 	return out
 }
+
+// ExactCmp reports whether fn has an If whose condition, after normalisation, is exactly "a rel b" (on either edge:
+// the edge on which rel holds exactly and its complement on the other).
+func ExactCmp(fn *ssa.Function, a, b VM, rel Rel) bool {
+	for _, blk := range fn.Blocks {
+		iff, ok := lastIf(blk)
+		if !ok {
+			continue
+		}
+		cond, neg := CondPolarity(iff.Cond)
+		bo, ok := cond.(*ssa.BinOp)
+		if !ok {
+			continue
+		}
+		r, ok := relOfOp(bo.Op)
+		if !ok {
+			continue
+		}
+		if neg {
+			r = r.neg()
+		}
+		if a(bo.X) && b(bo.Y) && (r == rel || r.neg() == rel) {
+			return true
+		}
+		if a(bo.Y) && b(bo.X) && (r.swap() == rel || r.swap().neg() == rel) {
+			return true
+		}
+	}
+	return false
+}
